@@ -94,3 +94,17 @@ Definition nonce_ok (t : tx) : Prop := 0 <= tnonce t < two64 - 1.
 Definition lists_wf (p : pool) : Prop :=
   (forall a l, assoc a (pending p) = Some l -> strict l = true /\ Forall nonce_ok (items l)) /\
   (forall a l, assoc a (queue p) = Some l -> Forall nonce_ok (items l)).
+
+(* ---------------------------------------------------------------- reorganisations: what reset has to reinject *)
+(* chain_down bs b l c: following parent links (GetBlock(parent hash, number-1)) from b reaches c; l = the blocks
+   passed on the way, b first, c excluded *)
+Inductive chain_down (bs : list block) : block -> list block -> block -> Prop :=
+| cd_here : forall b, chain_down bs b [] b
+| cd_step : forall b b' l c, get_block bs (bparent b) (bnumber b - 1) = Some b' -> chain_down bs b' l c -> chain_down bs b (b :: l) c.
+Definition txs_of (l : list block) : list tx := flat_map btxs l.
+(* the reinjection set of reset(old, new): transactions of the dropped branch that are not in the new branch *)
+Definition reorg_spec (bs : list block) (old new : block) (ri : list tx) : Prop :=
+  exists rem add_ dl il c1 c2,
+    get_block bs (bhash old) (bnumber old) = Some rem /\ get_block bs (bhash new) (bnumber new) = Some add_ /\
+    chain_down bs rem dl c1 /\ chain_down bs add_ il c2 /\ bhash c1 = bhash c2 /\
+    ri = tx_difference (txs_of dl) (txs_of il).
